@@ -304,6 +304,11 @@ async def _run(case, loop, base, root, outside):
     return Outcome(vio, sorted(labels), hostile)
 
 
+def bsize(szx):
+    """RFC 7959 block size; SZX 7 is RFC 8323 BERT, whose NUM still counts 1024-byte blocks"""
+    return 1024 if szx == 7 else 2 ** (szx + 4)
+
+
 def run_blockget(case):
     """a file fetched block by block with any block size is byte-identical to the file"""
     mimetypes.init()
@@ -330,7 +335,7 @@ async def _blockget(case, loop, root):
     for path, salt in ((["f.bin"], 0), (["d", "g.txt"], 1)):
         want = file_bytes(case["size"], salt)
         szx = case["szx"]
-        size = 2 ** (szx + 4)
+        size = bsize(szx)
         got = b""
         num = 0
         etags = set()
@@ -355,7 +360,7 @@ async def _blockget(case, loop, root):
                 vio.append(V("C19/blockwise-get-wrong-block-option", "%r asked (%d,%d) got %r" % (path, num, szx, tuple(b2))))
                 break
             szx = b2.size_exponent  # continue at the size the server used (only relevant after an implicit first request)
-            size = 2 ** (szx + 4)
+            size = bsize(szx)
             expect_more = (num + 1) * size < len(want)
             if bool(b2.more) != expect_more:
                 vio.append(V("C19/blockwise-get-more-flag", "%r size %d szx %d block %d: M=%s, bytes remain=%s" % (path, case["size"], szx, num, b2.more, expect_more)))
@@ -373,7 +378,7 @@ async def _blockget(case, loop, root):
 
 def cases_blockget():
     for size in FILE_SIZES + [64, 65, 2048, 2049, 5000]:
-        for szx in range(7):
+        for szx in range(8):
             for explicit in (True, False):
                 yield {"size": size, "szx": szx, "explicit_first": explicit}
 
@@ -452,7 +457,7 @@ RULE = (
     "'a/b', '/', NUL, '..%2f', '%2e%2e', long names, the components of the absolute path of the outside canary / a new outside file / the outside directory / /etc/hostname behind a leading empty component, "
     "dot-dot runs), If-Match / If-None-Match / ETag, Block2 (num, szx), payloads. Oracle: a file-system interposer (audit hook for open/listdir/scandir/rename/remove/mkdir/... plus os.stat/lstat wrappers) "
     "records every path touched during each request -- each must resolve (realpath) inside the root; a snapshot (names, contents, mtimes) of everything outside the root is unchanged, and with write off the inside too; "
-    "hostile paths never yield 2.xx; successful PUT/DELETE/GET on well-behaved paths have the expected effect/content. blockget: complete enumeration of file size x szx 0-6 x explicit/implicit first block: the "
+    "hostile paths never yield 2.xx; successful PUT/DELETE/GET on well-behaved paths have the expected effect/content. blockget: complete enumeration of file size x szx 0-7 (7 = BERT, 1024-byte units) x explicit/implicit first block: the "
     "reassembled blocks equal the file, M set exactly while bytes remain, one ETag. Non-trivial = history with a hostile path (empty non-final or leading component, dot segment, separator); blockget with > 2 blocks. "
     "Distinct = SHA-1 of the case."
 )
